@@ -290,6 +290,10 @@ class Engine:
         from .externals import Recorder
         if isinstance(val, Recorder):
             return z3.Const('api:' + val.path, V)
+        if isinstance(val, Obj):
+            t = smt.atom(smt.Marker('object:' + val.name))     # one of the world's singleton objects handed to code outside the proof
+            ctx.assume(smt.truthy(t), t != NONE)
+            return t
         raise Unsupported('cannot box %r' % (val,))
 
     def to_i(self, ctx, val):
